@@ -265,6 +265,17 @@ def main(run):
     base_lines += sweep
     asan_lines += [ln for ln in sweep if len(G.untok(ln.split()[-1])) <= (n_pq if not quick else 3) + 8]
 
+    # scheme table: every known and unknown scheme x Proxy-Uri or not x explicit/empty/no port
+    for sch in list(G.SCHEMES) + G.BAD_SCHEMES:
+        for px in (0, 1):
+            for tail in (b"://h", b"://h:", b"://h:1", b"://[::1]:65535/a?b", b"://%2Fsock", b":/h"):
+                base_lines.append("uspl %d %s %s" % (px, caps, G.tok(sch + tail)))
+    if not quick:
+        # segments longer than an option can carry (65804): header arithmetic of coap_opt_setheader
+        for k in (65804, 65805, 70000):
+            base_lines.append("upath %d %s" % (k + 10, "61" * k))
+            base_lines.append("uquery %d %s" % (k + 3, "61" * k))
+            base_lines.append("upol 1 11 %s" % ("61" * k))
     # escape tables: every byte value alone and next to a neighbour
     for b in range(256):
         for cmd in ("ugetp", "ugetq"):
